@@ -32,7 +32,7 @@ def _L_formula(K, m):
         t.mode = "K=%d designs, m=%d objectives concrete; noise_var, epsilon, delta, beta symbolic" % (K, m)
         eps, delta, nv, beta = [t.inp(n, InReal(n)) for n in ("epsilon", "delta", "noise_var", "beta")]
         t.assume(eps > 0, delta > 0, delta < 1, nv > 0, beta >= 1)
-        dataset_contract(t, K, m)
+        ds = dataset_contract(t, K, m)
         cone = SObj("ConeStub", {"beta": beta})
         order = SObj("OrderStub", {"ordering_cone": cone})
         obj = SObj(cls_ref(NE, "NaiveElimination"))
@@ -60,6 +60,24 @@ def _L_formula(K, m):
             z3.BoolVal(find_obj(p.st, obj.oid).fields["samples"].shape == (K, 0, m)),
             V.Z(find_obj(p.st, obj.oid).fields["round"]) == 0, V.Z(find_obj(p.st, obj.oid).fields["sample_count"]) == 0,
             z3.BoolVal(find_obj(p.st, obj.oid).fields["K"] == K)))
+
+        # the observations the L formula is sized for are the ones that will be drawn: the sampling problem is built on the same
+        # dataset with noise covariance noise_var * I (its Cholesky factor C satisfies C C^T = noise_var I)
+        def noise_goal(p):
+            pr = find_obj(p.st, obj.oid).fields.get("problem")
+            if not isinstance(pr, SObj):
+                return z3.BoolVal(False)
+            C = pr.fields.get("noise_cholesky")
+            cs = [z3.BoolVal(pr.fields.get("dataset") is ds)]
+            if isinstance(C, L.SArr) and C.shape == (m, m):
+                for i in range(m):
+                    for j in range(m):
+                        cs.append(sum(V.R(C.a[i, k]) * V.R(C.a[j, k]) for k in range(m)) == (V.R(nv) if i == j else 0))
+            else:
+                cs.append(z3.BoolVal(False))
+            return z3.And(*cs)
+        t.prove_paths("sampling_problem_draws_noise_of_the_configured_variance_on_the_same_dataset", paths, noise_goal,
+                      replay=noise_replay(t, K, m))
         t.implicit()
     return _t
 
@@ -80,6 +98,27 @@ def L_replay(t, K, m):
                 "spec = math.ceil(4 * ((1 + math.sqrt(2)) * math.sqrt(nv) * beta / eps) ** 2 * math.log(4 * m / (2 * delta / (K * (K - 1)))))",
                 "print('noise_var', nv, 'eps', eps, 'delta', delta, 'beta', beta, ': library L =', int(a.L), ' formula with sigma = sqrt(noise_var):', spec)",
                 "if int(a.L) != spec:",
+                "    print('REPLAY-CONFIRMED obligation=%s' % OBLIGATION)", "    raise SystemExit(1)",
+                "print('REPLAY-NOT-REPRODUCED obligation=%s' % OBLIGATION)", "raise SystemExit(4)"]
+    return builder
+
+
+def noise_replay(t, K, m):
+    def builder(mdl):
+        me = lambda x: mdl.eval(V.Z(x), model_completion=True)
+        from pyvc.harness import _num_src
+        vals = {n: _num_src(me, t.inputs[n].sym) for n in ("epsilon", "delta", "noise_var", "beta")}
+        return ["import math, types",
+                "import vopy.algorithms.naive_elimination as M",
+                "eps, delta, nv, beta = %s, %s, %s, %s" % (vals["epsilon"], vals["delta"], vals["noise_var"], vals["beta"]),
+                "K, m = %d, %d" % (K, m),
+                "ds = types.SimpleNamespace(in_data=np.zeros((K, 2)), out_data=np.zeros((K, m)), in_dim=2, out_dim=m)",
+                "M.get_dataset_instance = lambda name: ds",
+                "order = types.SimpleNamespace(ordering_cone=types.SimpleNamespace(beta=beta))",
+                "a = M.NaiveElimination(eps, delta, 'stub', order, nv)",
+                "C = np.asarray(a.problem.noise_cholesky, dtype=float)",
+                "print('configured noise_var', nv, ': the sampling problem draws noise with covariance'); print(C @ C.T)",
+                "if a.problem.dataset is not ds or C.shape != (m, m) or not np.allclose(C @ C.T, nv * np.eye(m), rtol=1e-9, atol=1e-12):",
                 "    print('REPLAY-CONFIRMED obligation=%s' % OBLIGATION)", "    raise SystemExit(1)",
                 "print('REPLAY-NOT-REPRODUCED obligation=%s' % OBLIGATION)", "raise SystemExit(4)"]
     return builder
